@@ -527,6 +527,73 @@ def make_case(rng, idx):
     raise RuntimeError('generator failed 20 times')
 
 
+def generic_twin(script, inputs):
+    """the same concrete case with every name replaced by a conventional fold-distinct one"""
+    names = []
+    for n in [str(x) for x in inputs] + [str(c) for d in inputs.values() for c in d.comps] + R.syms(list(script)):
+        if n not in names:
+            names.append(n)
+    tm = {n: 'Tw_%d' % (i + 11) for i, n in enumerate(names)}
+    return {'script': R.subst(list(script), tm), 'rho': {v: k for k, v in tm.items()},
+            'inputs': {tm[str(n)]: R.RDS({Sym(tm[str(c)]): v for c, v in d.comps.items()},
+                                         [{tm[str(c)]: v for c, v in r.items()} for r in d.rows]) for n, d in inputs.items()}}
+
+
+def corpus():
+    """hand-written cases, run first on every run: one per recorded failure mode (findings/C29.md F1-F7) and the
+    neighbouring cases that must work"""
+    S = Sym
+    I, N, T = ('Integer', 'Identifier'), ('Number', 'Measure'), ('String', 'Measure')
+
+    def ds(comps, *rows):
+        return R.RDS({S(k): v for k, v in comps}, [dict(zip([k for k, _ in comps], r)) for r in rows])
+
+    def one():
+        return ds([('Id_1', I), ('Me_1', N)], (1, 1.0), (2, 2.0))
+    mul2 = ('b', '*', ('c', S('Me_1')), ('k', 2))
+    out = []
+
+    def add(tag, inputs, script):
+        out.append({'idx': 'corpus-' + tag, 'mode': 'corpus', 'script': script, 'inputs': {S(k): v for k, v in inputs.items()},
+                    'pair': None, 'twin': generic_twin(script, {S(k): v for k, v in inputs.items()})})
+    add('F1', {'DS_1': ds([('Id_1', I), ('Me_1', N), ('me_1', N)], (1, 1.0, 10.0), (2, 2.0, 20.0))}, [(S('DS_r'), True, ('ds', S('DS_1')))])
+    add('F2', {'DS_1': one(), 'ds_1': ds([('Id_1', I), ('Me_1', N)], (1, 100.0), (2, 200.0))},
+        [(S('DS_r'), True, ('bin', '+', ('ds', S('DS_1')), ('ds', S('ds_1'))))])
+    add('F3', {'DS_1': one()}, [(S('ds_1'), True, ('binsc', '*', ('ds', S('DS_1')), 2))])
+    add('F3b', {'DS_1': one()}, [(S('ds_x'), False, ('binsc', '*', ('ds', S('DS_1')), 2)), (S('DS_x'), False, ('binsc', '*', ('ds', S('DS_1')), 3)),
+                                 (S('DS_r'), True, ('bin', '+', ('ds', S('ds_x')), ('ds', S('DS_x'))))])
+    add('F4', {'DS_1': one()}, [(S('DS_r'), True, ('calc', ('ds', S('DS_1')), [(S('me_1'), mul2)]))])
+    add('F4b', {'DS_1': one()}, [(S('DS_r'), True, ('calc', ('calc', ('ds', S('DS_1')), [(S('me_1'), mul2)]),
+                                                     [(S('Me_3'), ('b', '+', ('c', S('me_1')), ('c', S('Me_1'))))]))])
+    add('F4c', {'DS_1': one()}, [(S('DS_r'), True, ('calc', ('calc', ('ds', S('DS_1')), [(S('me_1'), ('k', 'a'))]),
+                                                     [(S('Me_3'), ('sf', 'upper', ('c', S('me_1'))))]))])
+    add('F4d', {'DS_1': one()}, [(S('DS_r'), True, ('calc', ('rename', ('ds', S('DS_1')), [(S('Me_1'), S('me_1'))]),
+                                                     [(S('Me_1'), ('b', '+', ('c', S('me_1')), ('k', 1)))]))])
+    add('F5', {'DS_1': one(), 'DS_2': ds([('Id_1', I), ('me_1', N)], (1, 100.0), (2, 200.0))},
+        [(S('DS_r'), True, ('join', 'inner_join', [(S('DS_1'), None), (S('DS_2'), None)], None, []))])
+    add('F5b', {'DS_1': one(), 'DS_2': ds([('Id_1', I), ('me_1', T)], (1, 'a'), (2, 'b'))},
+        [(S('DS_r'), True, ('join', 'inner_join', [(S('DS_1'), S('d1')), (S('DS_2'), S('d2'))], None,
+                            [('calc', [(S('Me_3'), ('b', '-', ('c', S('Id_1')), ('c', S('Me_1'))))]), ('drop', [S('me_1')])]))])
+    add('F6', {'DS_1': one(), 'DS_2': ds([('Id_1', I), ('Me_2', N)], (1, 100.0), (2, 200.0))},
+        [(S('DS_r'), True, ('join', 'inner_join', [(S('DS_1'), S('d1')), (S('DS_2'), S('D1'))], None, []))])
+    add('F7', {'DS_1': one()}, [(S('DS_r'), True, ('aggrc', ('ds', S('DS_1')), [(S('ID_1'), 'sum', S('Me_1'))], [S('Id_1')]))])
+    # neighbours that must work
+    add('ok-respell', {'DS_1': one()}, [(S('DS_r'), True, ('rename', ('ds', S('DS_1')), [(S('Me_1'), S('me_1'))]))])
+    add('ok-aggr-variant', {'DS_1': one()}, [(S('DS_r'), True, ('aggrc', ('ds', S('DS_1')), [(S('me_1'), 'sum', S('Me_1'))], [S('Id_1')]))])
+    add('ok-two-results', {'DS_1': one()}, [(S('DS_r'), True, ('binsc', '*', ('ds', S('DS_1')), 2)), (S('ds_r'), True, ('binsc', '*', ('ds', S('DS_1')), 3))])
+    add('ok-lower-names', {'ds_1': ds([('id_1', I), ('mE_1', N)], (1, 1.0), (2, 2.0))},
+        [(S('ds_r'), True, ('calc', ('ds', S('ds_1')), [(S('ME_2'), ('b', '*', ('c', S('mE_1')), ('k', 2)))]))])
+    add('err-wrong-comp', {'DS_1': one()}, [(S('DS_r'), True, ('calc', ('ds', S('DS_1')), [(S('Me_2'), ('b', '*', ('c', S('me_1')), ('k', 2)))]))])
+    add('err-wrong-ds', {'DS_1': one()}, [(S('DS_r'), True, ('binsc', '*', ('ds', S('ds_1')), 2))])
+    add('err-wrong-memb', {'DS_1': one()}, [(S('DS_r'), True, ('memb', S('DS_1'), S('ME_1')))])
+    for c in out:
+        if c['idx'].startswith('corpus-err'):
+            c['mode'] = 'wrongcase'
+            c['wrong'] = ['?', '?', c['script'][0][2][0]]
+            # twin of a wrong-case case: the unknown name stays unknown
+    return out
+
+
 # =========================================================================================== engine side
 def structures_of(inputs):
     return {'datasets': [{'name': str(n), 'DataStructure': [
@@ -609,13 +676,34 @@ def run_engine(job):
         signal.alarm(0)
 
 
-def run_jobs(jobs, procs=16):
+def run_jobs(jobs, budget_s, procs=16):
+    """run the jobs on the real engine in worker processes; stop collecting when the wall-clock budget is used up
+    (the jobs that did not finish are simply absent from the result)"""
     if not jobs:
         return {}
     import multiprocessing as mp
     ctx = mp.get_context('fork')
-    with ctx.Pool(min(procs, max(1, len(jobs))), maxtasksperchild=150) as pool:
-        return dict(pool.imap_unordered(run_engine, jobs, chunksize=4))
+    res = {}
+    pool = ctx.Pool(min(procs, max(1, len(jobs))), maxtasksperchild=400)
+    try:
+        it = pool.imap_unordered(run_engine, jobs)
+        # the budget starts with the first answer (worker start-up = importing the engine is not counted, but is
+        # itself limited to 10 minutes)
+        deadline = time.time() + 600
+        while True:
+            try:
+                jid, out = it.next(timeout=max(1.0, deadline - time.time()))
+            except StopIteration:
+                break
+            except mp.TimeoutError:
+                break
+            if not res:
+                deadline = time.time() + budget_s
+            res[jid] = out
+    finally:
+        pool.terminate()
+        pool.join()
+    return res
 
 
 # =========================================================================================== comparison
@@ -684,29 +772,19 @@ def diff(expected, got):
     return None
 
 
-RAW_PATTERNS = [
-    (r'Column with name .* already exists', 'column-exists'),
-    (r'Table with name .* already exists', 'table-exists'),
-    (r'duplicate alias', 'duplicate-alias'),
-    (r'Ambiguous reference to column', 'ambiguous-column'),
-    (r'Ambiguous reference to table', 'ambiguous-table'),
-    (r'has duplicate column name|Duplicate column name|duplicate column', 'duplicate-column'),
-    (r'does not have a column named|Referenced column .* not found|column .* does not exist', 'column-not-found'),
-    (r'Table .* does not exist|Table with name .* does not exist', 'table-not-found'),
-]
-
-
 def raw_class(got):
-    cls = got[1].split('.')[-1]
-    msg = got[3]
-    tag = None
-    for pat, t in RAW_PATTERNS:
-        if re.search(pat, msg, re.I):
-            tag = t
-            break
-    if tag is None:
-        tag = 'other-' + re.sub(r'[^A-Za-z]+', '-', re.sub(r'"[^"]*"|\b\w*\d\w*\b', 'N', msg))[:40].strip('-')
-    return 'raw:%s@%s:%s' % (cls, got[2], tag)
+    """failure class of an exception that is not a VTL error: which kind, raised from which function of the
+    package.  DuckDB exceptions are split in catalog errors (an object of that name exists already) and
+    query errors (the generated SQL does not bind / parse / convert)."""
+    mod, _, cls = got[1].rpartition('.')
+    if 'duckdb' in mod:
+        return '%s@%s' % ('duckdb-catalog-error' if cls == 'CatalogException' else 'duckdb-query-error', got[2])
+    return 'raw:%s@%s' % (got[1], got[2])
+
+
+def coarse(dclass):
+    """failure class used in the keys of colliding cases: every silent difference is one class"""
+    return 'silent-wrong-result' if dclass.startswith('silent:') else dclass
 
 
 SCOPE_KIND = {'input': 'input-components', 'datasets': 'dataset-names', 'result': 'result-components'}
@@ -724,7 +802,7 @@ def collision_of(tr):
             elif 'join' in ctx:
                 kind = 'join-components'
             else:
-                kind = 'clause-components:' + ctx
+                kind = 'clause-components'
             return kind, c[0], c[1]
     return None
 
@@ -779,7 +857,7 @@ def do_replay(ck, path):
     if d is None:
         print('replay: engine agrees with the exact-name reference')
         return
-    key = ('%s|%s' % (col[0], d[0])) if col else 'noncolliding:%s:%s' % (rp.get('mode'), d[0])
+    key = ('%s|%s' % (col[0], coarse(d[0]))) if col else 'noncolliding:%s:%s' % (rp.get('mode'), d[0])
     ck.violation(key, rp, d[1])
 
 
@@ -841,11 +919,14 @@ def duckdb_tie(ck, n):
     rng = ck.rng
     names_pool = ['Me_1', 'me_1', 'ME_1', 'mE_1', 'Me_2', 'ME_2', 'Id_1', 'ID_1', 'id_1', 'x', 'X']
     lines, facts = [], []
+    conn = duckdb.connect()
+    conn.execute('SET threads = 1')
     for i in range(n):
         # (a) build_create_table_sql on a set of component names: succeeds iff not collides
         names = rng.sample(names_pool, rng.randint(1, 4))
         comps = {nm: Component(name=nm, data_type=Integer, role=Role.MEASURE, nullable=True) for nm in names}
-        conn = duckdb.connect()
+        conn.execute('DROP TABLE IF EXISTS t')
+        conn.execute('DROP TABLE IF EXISTS s')
         try:
             conn.execute(build_create_table_sql('t', comps))
             ok = True
@@ -866,11 +947,10 @@ def duckdb_tie(ck, n):
             try:
                 if kind == 'i':
                     cur = [c[0] for c in conn.execute('DESCRIBE s').fetchall() if c[0] != '__k']
-                    if any(c.lower() == k.lower() for c in cur):
-                        ops.append(('i', k, 50 + j)); obs.append('d')     # model: overwrite, keeps the old spelling
-                    else:
+                    ops.append(('i', k, 50 + j))
+                    if not any(c.lower() == k.lower() for c in cur):      # else: model overwrites, keeps the old spelling
                         conn.execute('ALTER TABLE s ADD COLUMN "%s" INTEGER' % k)
-                        ops.append(('i', k, 50 + j)); obs.append('d')
+                    obs.append('d')
                 elif kind == 'e':
                     ops.append(('e', k))
                     conn.execute('ALTER TABLE s DROP COLUMN "%s"' % k)
@@ -887,9 +967,9 @@ def duckdb_tie(ck, n):
             except duckdb.Error as e:
                 obs.append('fail:' + type(e).__name__)
         final = [c[0] for c in conn.execute('DESCRIBE s').fetchall() if c[0] != '__k']
-        conn.close()
         lines.append(lean_line('ci', init, ops))
         facts.append(('ddl', init, ops, obs, final))
+    conn.close()
     answers = ck.driver('TextNames', lines)
     bad = 0
     for f, a in zip(facts, answers):
@@ -982,7 +1062,7 @@ def main(ck):
     pr = ck.proof('C29')
     ncases = int(os.environ.get('C29_N') or (320 if ck.quick() else 3000))
     dbg('proof done')
-    cases = [make_case(ck.rng, i) for i in range(ncases)]
+    cases = corpus() + [make_case(ck.rng, i) for i in range(ncases)]
     dbg('cases generated')
 
     # ---- pass 1: reference evaluation and the real engine on every case
@@ -992,10 +1072,12 @@ def main(ck):
         c['expected'], c['trace'] = R.evaluate(c['script'], c['inputs'])
         jobs.append((c['idx'], c['text'], structures_of(c['inputs']), data_of(c['inputs'])))
     dbg('reference evaluated')
-    results = run_jobs(jobs)
-    dbg('engine pass 1 done')
+    results = run_jobs(jobs, 100 if ck.quick() else 900)
+    dbg('engine pass 1 done (%d of %d)' % (len(results), len(jobs)))
     # ---- pass 2: the twin (same script, conventional fold-distinct names) of every disagreeing case
     jobs2 = []
+    not_run = [c for c in cases if c['idx'] not in results]
+    cases = [c for c in cases if c['idx'] in results]
     for c in cases:
         c['got'] = results[c['idx']]
         c['diff'] = diff(c['expected'], c['got'])
@@ -1004,7 +1086,7 @@ def main(ck):
             t['text'] = R.render(t['script'])
             t['expected'], t['trace'] = R.evaluate(t['script'], t['inputs'])
             jobs2.append((c['idx'], t['text'], structures_of(t['inputs']), data_of(t['inputs'])))
-    results2 = run_jobs(jobs2)
+    results2 = run_jobs(jobs2, 70 if ck.quick() else 600)
     dbg('engine pass 2 done (%d twins)' % len(jobs2))
     t_engine = time.time() - t0
 
@@ -1032,6 +1114,9 @@ def main(ck):
             bump(outcomes, cat + ':timeout')
             continue
         t = c['twin']
+        if c['idx'] not in results2:
+            bump(outcomes, cat + ':twin-not-run(wall budget)')
+            continue
         tgot = results2[c['idx']]
         td = diff(t['expected'], tgot)
         if td is not None and outcome_equiv(got, tgot, t['rho']):
@@ -1042,8 +1127,8 @@ def main(ck):
             continue
         extra = {'twin': {'script': t['text'], 'engine_agrees_with_reference': td is None}, 'wrong': c.get('wrong')}
         if cat == 'colliding':
-            key = '%s|%s' % (col[0], d[0])
-            bump(outcomes, 'colliding:' + key)
+            key = '%s|%s' % (col[0], coarse(d[0]))
+            bump(outcomes, 'colliding:' + key + ' / ' + d[0])
             extra['collision'] = list(col)
             ck.violation(key, case_to_replay(c, c['text'], expected, got, extra),
                          'names %s / %s share a scope (%s): %s' % (col[1], col[2], col[0], d[1]))
@@ -1054,6 +1139,8 @@ def main(ck):
             ck.violation(key, case_to_replay(c, c['text'], expected, got, extra),
                          'no two names of one scope differ only in case, yet: ' + d[1])
 
+    dbg('outcomes: ' + json.dumps(dict(sorted(outcomes.items())), indent=1))
+    dbg('unrelated: ' + json.dumps(dict(sorted(unrelated.items())), indent=1))
     # ---- Lean tie: the reference's scope operations on runCS; collides on every scope
     lines, owners = [], []
     for c in cases:
@@ -1070,7 +1157,7 @@ def main(ck):
                 owners.append(('col', c, names))
     try:
         dbg('lean requests: %d' % len(lines))
-        answers = ck.driver('TextNames', lines)
+        answers = ck.driver('TextNames', lines) if lines else []
         dbg('lean driver done')
         last_cs = None
         for (kind, c, x), a in zip(owners, answers):
@@ -1087,7 +1174,7 @@ def main(ck):
                 if (a == '1') != (fold_collision(x) is not None):
                     ck.unproved('collides-vs-harness', 'Lean collides=%s on %s' % (a, x))
         ck.cov['traces_validated_against_impl'] = sum(1 for k in owners if k[0] == 'grp')
-        duckdb_tie(ck, 150 if ck.quick() else 1500)
+        duckdb_tie(ck, 100 if ck.quick() else 600)
     except vlib.DriverError as e:
         ck.unproved('driver:TextNames', str(e)[:500])
 
@@ -1098,7 +1185,8 @@ def main(ck):
     ck.note('contexts', dict(sorted(hist.items())))
     ck.note('outcomes', dict(sorted(outcomes.items())))
     ck.note('unrelated_engine_disagreements', dict(sorted(unrelated.items())))
-    ck.note('engine_calls', len(jobs) + len(jobs2))
+    ck.note('engine_calls', len(results) + len(results2))
+    ck.note('cases_not_run_wall_budget', len(not_run))
     ck.note('engine_wall_s', round(t_engine, 1))
     ck.note('lean_requests', len(lines))
     ck.trusted('reference evaluator harness/checks/c29_ref.py (exact-name semantics of the generated operator subset)',
